@@ -61,7 +61,7 @@ def status_entry_of(v, depth=0):
 
 def run(ctx):
     F, G, R = ctx.F, ctx.G, ctx.R
-    chk = Check("C05", ctx.tier, "Six structural clauses of well-formed, fully delivered responses: write_all, CR/LF-free reflected headers, paired status line, bodiless HEAD/OPTIONS, Content-Length from the emitted body, header block shape.")
+    chk = Check("C05", ctx.tier, "Seven structural clauses of well-formed, fully delivered responses: write_all + flush, CR/LF-free reflected headers, paired status line, bodiless HEAD/OPTIONS, Content-Length from the emitted body, header block shape.")
     chk.technique = "MIR call-site rules, constant/table extraction, forward pairing of field assignments, edge dominance of the body concatenation by the method tests"
     chk.analysed = ctx.analysed_summary()
     roots = R.connection_roots()
